@@ -58,6 +58,9 @@ type writeOnlyFile struct {
 
 func (w *writeOnlyFile) Read(p []byte) (n int, err error) {
 	// Read is required by hackpadfs.File
+	if w.file.closed {
+		return 0, w.file.closedErr("read")
+	}
 	return 0, &hackpadfs.PathError{Op: "read", Path: w.file.path, Err: hackpadfs.ErrNotImplemented}
 }
 
